@@ -465,6 +465,8 @@ package mcap
     loop 1 backedge [chunk-without-message-index-offsets-is-never-pruned-by-channel] {C04 C12} len(idx.MessageIndexOffsets) == 0
         ==> len(selected) == athead(len(selected)) + 1 && selected[len(selected)-1] == idx
     loop 1 backedge [nothing-added-but-the-chunk-itself] {C04 C12} len(selected) == athead(len(selected)) || (len(selected) == athead(len(selected)) + 1 && selected[len(selected)-1] == idx)
+    loop 2 invariant [no-selected-channel-among-the-offsets-visited-so-far] {C04 C12} !keep ==> forall(c, 0, 65536, in(idx.MessageIndexOffsets, c) && seen(idx.MessageIndexOffsets, c) ==> smGet(it.channels, c) == nil)
+    loop 1 backedge [only-a-chunk-without-any-selected-channel-is-pruned] {C04 C12} len(selected) == athead(len(selected)) ==> forall(c, 0, 65536, in(idx.MessageIndexOffsets, c) ==> smGet(it.channels, c) == nil)
 @*/
 
 /*@ func (*indexedMessageIterator).loadChunk$1
@@ -1141,6 +1143,8 @@ package mcap
         && lastChunk(w).MessageStartTime == ite(old(w.currentChunkMessageCount) != 0, old(w.currentChunkStartTime), 0)
         && lastChunk(w).MessageEndTime == ite(old(w.currentChunkMessageCount) != 0, old(w.currentChunkEndTime), 0)
     ensures [nothing-buffered-nothing-written] {C05} old(w.compressedWriter.size) == 0 ==> r0 == nil && w.w.size == old(w.w.size) && len(w.ChunkIndexes) == old(len(w.ChunkIndexes))
+    loop 2 invariant [every-message-index-emptied-by-a-flush] {C20 C05} forall(k, 0, 65536, in(w.messageIndexes, k) && seen(w.messageIndexes, k) ==> w.messageIndexes[k].currentIndex == 0)
+    ensures [every-message-index-emptied-by-a-flush] {C20 C05} r0 == nil && old(w.compressedWriter.size) != 0 ==> forall(k, 0, 65536, in(w.messageIndexes, k) ==> w.messageIndexes[k].currentIndex == 0)
     call writeChunkWithIndexes#1 assert [chunk-times-are-the-chunk's-message-range] {C05} arg0.MessageStartTime == ite(old(w.currentChunkMessageCount) != 0, old(w.currentChunkStartTime), 0)
         && arg0.MessageEndTime == ite(old(w.currentChunkMessageCount) != 0, old(w.currentChunkEndTime), 0)
 @*/
